@@ -2,14 +2,18 @@
 import itertools, random
 from vlib import Case
 
-RULE = ("histories over publisher<int>/subscriber<int>: publish (single/batch), close, ~publisher, kick, subscribe "
+RULE = ("engine pub: histories over publisher<int>/subscriber<int>: publish (single/batch), close, ~publisher, kick, subscribe "
         "(recent / at position / by copy) in the three modes, ~subscriber, position(), and next() split into its three "
         "locked steps await_ready / subscribe / await_resume, over min/max in 1..5 and unlimited; the generator keeps a "
         "shadow of each subscriber's protocol state so that histories follow the next() protocol (plus a small stream of "
         "protocol-breaking / malformed ops); thorough adds every history of length <= 8 over a 2-subscriber alphabet. "
         "A case is non-trivial when the model's trace follows the next() protocol for every subscriber, at least one "
         "value or end of stream is delivered and either an awaiter is woken or a step of another party (publish/close/"
-        "kick/subscribe) falls between two steps of one next(); distinct = distinct op list")
+        "kick/subscribe) falls between two steps of one next(); distinct = distinct op list.  engine pubt: a publisher "
+        "thread (publish/batch/close/~publisher/kick/copy/leave) against 1-3 subscriber threads (blocking next(), a coroutine "
+        "co_awaiting next(), polling next_ready()) under random schedules and, for fixed small programs, every schedule "
+        "prefix of length 6 (quick) / 9 (thorough); non-trivial = a value is delivered and an awaiter is woken or steps of "
+        "different threads interleave inside one next()")
 SCOPE = ("publisher<T>::queue subscribe_lk/leave_lk/advance_lk/advance_suspend_lk/get_value_lk/push_lk/kick_lk/close, "
          "publisher publish/close/kick/destructor, subscriber constructors/copy/destructor/position and next() through "
          "co_awaiter's public await_ready/subscribe/await_suspend(fn)/await_resume; lock-granularity interleavings of any "
@@ -198,8 +202,8 @@ def apply_abstract(sh, a, ops, val):
         ops.append([4, sid, src]); new_sub(sh, sid, sh.subs[src]["mode"], sh.subs[src]["pos"])
     elif k == "L":
         sid = a[1]
-        if sid not in sh.subs or not sh.subs[sid]["live"] or sh.subs[sid]["pc"] == "parked" or sh.subs[sid].get("blk"):
-            return False
+        if sid not in sh.subs or not sh.subs[sid]["live"] or sh.subs[sid].get("blk"): return False
+        if sh.subs[sid]["pc"] == "parked" and not (len(a) > 2 and a[2]): return False   # ("L", s, 1) = also while parked
         ops.append([9, sid]); sh.subs[sid]["live"] = False
     elif k == "Q":
         sid = a[1]
@@ -241,7 +245,7 @@ def gen_random(rng, name, nletters):
         elif r < 0.81: letters.append(("S", s, rng.choice(modes)))
         elif r < 0.86: letters.append(("A", s, rng.choice(modes), rng.choice([0, 1, 1, 2, 3, 6, -1, -2])))
         elif r < 0.92: letters.append(("Y", s, rng.choice(sids)))
-        elif r < 0.96: letters.append(("L", s))
+        elif r < 0.96: letters.append(("L", s, rng.choice([0, 0, 1])))
         else: letters.append(("Q", s))
     if rng.random() < 0.7:
         letters = [("S", 0, rng.choice(modes))] + letters
@@ -337,6 +341,10 @@ def boundary_cases():
         add(1, 0, [S0, N0, N0, ("B", 2), N0, N0, N0, N0, N0])
         add(1, 1, [S0, P, N0, P, N0, N0, N0, N0, N0])
         add(1, 0, [S0, P, C, O0, O0, O0, O0])
+        # a subscriber destroyed while its awaiter is parked: that awaiter must never be resumed
+        add(1, 0, [S0, N0, N0, ("L", 0, 1), P, C])
+        add(1, 0, [S0, ("S", 1, mode), N0, N0, N1, N1, ("L", 0, 1), P, N1, N1, ("S", 2, mode), ("N", 2), ("N", 2), P, ("N", 2), C])
+        add(1, 0, [S0, N0, N0, ("Y", 1, 0), ("L", 0, 1), P, N1, N1, ("K", 0), ("D",)])
         # two parked subscribers woken by one publish / close / ~publisher
         for w in (P, C, ("D",), ("B", 2)):
             add(1, 0, [S0, ("S", 1, mode), N0, N0, N1, N1, w, N0, N1, N0, N1, N0, N1])
@@ -372,8 +380,6 @@ def exhaustive(maxlen, mode, cfgs, alpha=None):
 
 def gen(seed, tier):
     rng = random.Random(seed * 104729 + 16)
-    # a hang (a blocked helper thread never woken) costs the whole batch timeout: keep it short in the quick tier
-    PARTS[0]["timeout_case"] = 3 if tier == "quick" else 30
     cases = boundary_cases()
     n = 1200 if tier == "quick" else 12000
     for i in range(n):
@@ -399,6 +405,11 @@ def gen(seed, tier):
 
 
 def nontrivial(case, model_obs):
+    if case.engine == "pubt": return nontrivial_thr(case, model_obs)
+    return nontrivial_seq(case, model_obs)
+
+
+def nontrivial_seq(case, model_obs):
     """protocol followed by every subscriber in the model's trace + something delivered + an interleaved step or a wake"""
     pc = {}
     st = {"delivered": False, "woke": False, "inter": False}
@@ -465,14 +476,111 @@ def nontrivial(case, model_obs):
     return st["delivered"] and (st["woke"] or st["inter"])
 
 
+# ---------------------------------------------------------------- threaded engine (pubt)
+def thr_case(name, mn, mx, subs, prog, sched):
+    """subs: [(mode, style, count)], prog: publisher program (wire ops), sched: choices"""
+    line = [100]
+    for m, st, c in subs: line += [m, st, c]
+    return Case("pubt", name, [[mn, mx], line] + [list(o) for o in prog] + [[102] + list(sched)])
+
+
+def gen_thr_random(rng, name):
+    mn = rng.choice([1, 1, 2, 3]); mx = rng.choice([0, 0, mn, mn + 1])
+    nsubs = rng.choice([1, 2, 2, 3])
+    modes = rng.choice([[0], [0], [0, 1, 2], [1], [2]])
+    subs = [(rng.choice(modes), rng.choice([0, 0, 1, 1, 2]), rng.choice([1, 2, 3, 4])) for _ in range(nsubs)]
+    prog, val, ncopy = [], 100, 0
+    for _ in range(rng.randint(2, 8)):
+        r = rng.random()
+        if r < 0.5: prog.append([0, val]); val += 1
+        elif r < 0.62:
+            k = rng.choice([0, 2, 2, 3]); prog.append([1] + [val + i for i in range(k)]); val += k
+        elif r < 0.72: prog.append([8, rng.randrange(nsubs + ncopy)])
+        elif r < 0.82: prog.append([4, nsubs + ncopy, rng.randrange(nsubs + ncopy)]); ncopy += 1
+        elif r < 0.92: prog.append([9, rng.randrange(nsubs + max(ncopy, 1))])
+        elif r < 0.95: prog.append([10])
+        elif r < 0.97: prog.append([12])
+        else: prog.append(rng.choice([[5, 0], [13], [2, 7, 0], [0]]))   # not executed by the publisher thread: skipped
+    prog.append(rng.choice([[10], [10], [12]]))
+    if rng.random() < 0.2: prog.append(rng.choice([[0, val], [10], [8, 0], [12]]))
+    sched = [rng.randrange(6) for _ in range(rng.choice([20, 40, 70]))]
+    return thr_case(name, mn, mx, subs, prog, sched)
+
+
+def thr_exhaustive(tag, mn, mx, subs, prog, depth):
+    out = []
+    n = len(subs) + 1
+    for i, sch in enumerate(itertools.product(range(n), repeat=depth)):
+        out.append(thr_case("%s_%d" % (tag, i), mn, mx, subs, prog, list(sch)))
+    return out
+
+
+def gen_thr(seed, tier):
+    rng = random.Random(seed * 7368787 + 1616)
+    cases = []
+    # ~publisher / close / kick with parked subscribers on other threads, copy and leave while parked
+    b = 0
+    for style in (0, 1):
+        for mode in (0, 1, 2):
+            for prog in ([[12]], [[10]], [[8, 0], [0, 100], [10]], [[0, 100], [4, 5, 0], [9, 0], [0, 101], [9, 5], [12]],
+                         [[4, 5, 0], [0, 100], [1, 101, 102], [12]], [[0, 100], [9, 0], [0, 101], [10]]):
+                for sched in ([1] * 6 + [0] * 30, [1, 2] * 4 + [0] * 30, [0] * 40, [2, 1, 0] * 12):
+                    cases.append(thr_case("tb%d" % b, 1, 0, [(mode, style, 3), (mode, 1 - style, 2)], prog, sched)); b += 1
+    n = 400 if tier == "quick" else 6000
+    for i in range(n):
+        cases.append(gen_thr_random(rng, "tg%d" % i))
+    if tier == "quick":
+        cases += thr_exhaustive("tx", 1, 0, [(0, 0, 2), (0, 1, 2)], [[0, 100], [0, 101], [10]], 6)
+        cases += thr_exhaustive("ty", 1, 1, [(2, 1, 2), (1, 0, 2)], [[0, 100], [1, 101, 102], [12]], 6)
+    else:
+        for k, (mn, mx, subs, prog) in enumerate([
+                (1, 0, [(0, 0, 2), (0, 1, 2)], [[0, 100], [0, 101], [10]]),
+                (1, 1, [(2, 1, 2), (1, 0, 2)], [[0, 100], [1, 101, 102], [12]]),
+                (1, 1, [(0, 1, 3), (0, 2, 3)], [[0, 100], [0, 101], [0, 102], [10]]),
+                (1, 0, [(0, 1, 2), (0, 1, 2)], [[0, 100], [8, 0], [0, 101], [12]]),
+                (2, 2, [(1, 0, 2), (2, 2, 3)], [[1, 100, 101], [0, 102], [10]])]):
+            cases += thr_exhaustive("tx%d" % k, mn, mx, subs, prog, 9)
+    cases.append(Case("pubt", "tbad0", [[1, 0], [100, 0, 0], [102]]))
+    cases.append(Case("pubt", "tbad1", [[1, 0], [100, 0, 3, 1], [0, 1], [102, 0]]))
+    cases.append(Case("pubt", "tbad2", [[1, 0], [100, 0, 0, 1], [0, 1]]))
+    return cases
+
+
+def close_case(case):
+    """a threaded case whose publisher never closes leaves its blocked subscribers waiting forever by design: keep a
+    close in the program (used while shrinking)"""
+    if case.engine != "pubt" or len(case.ops) < 3 or not case.ops[-1] or case.ops[-1][0] != 102: return case
+    prog = case.ops[2:-1]
+    if any(o in ([10], [12]) for o in prog): return case
+    return Case(case.engine, case.name, case.ops[:-1] + [[10], case.ops[-1]], case.meta)
+
+
+def nontrivial_thr(case, model_obs):
+    delivered = woke = inter = False
+    inflight = {}
+    for l in model_obs[1:]:
+        a = l.split()
+        if len(a) < 7 or a[3] != "0": continue
+        tid, code, arg = a[0], a[1], a[2]
+        if code == "200" and len(a) > 7: woke = True
+        if code == "5": inflight[arg] = True
+        elif code == "7":
+            inflight.pop(arg, None)
+            if a[4] == "1": delivered = True
+        if code in ("200", "5", "6", "7") and any(k != arg or code == "200" for k in inflight): inter = True
+    return delivered and (woke or inter)
+
+
 def obs_equal(case, model_obs, impl_obs):
     """same lines; the resumed-awaiter lists are compared as multisets (helper threads of blocking calls are
     detected after the logging awaiters)"""
     if len(model_obs) != len(impl_obs): return False
-    for a, b in zip(model_obs, impl_obs):
+    k = 7 if case.engine == "pubt" else 4
+    for i, (a, b) in enumerate(zip(model_obs, impl_obs)):
         if a == b: continue
         x, y = a.split(), b.split()
-        if x[:4] != y[:4] or sorted(x[4:]) != sorted(y[4:]): return False
+        kk = 4 if i == 0 else k
+        if x[:kk] != y[:kk] or sorted(x[kk:]) != sorted(y[kk:]): return False
     return True
 
 
@@ -484,7 +592,8 @@ def signature(case, impl_obs, model_obs):
         kind = "HANG"
     else:
         kind = "oracle"
-    return "pub:%s" % kind
+    return "%s:%s" % (case.engine, kind)
 
 
-PARTS = [{"name": "seq_pub", "harness": "seq_pub.cpp", "gen": gen}]
+PARTS = [{"name": "seq_pub", "harness": "seq_pub.cpp", "gen": gen},
+         {"name": "ctl_pub", "harness": "ctl_pub.cpp", "gen": gen_thr}]
